@@ -163,6 +163,16 @@ def step (d : DState) (toks : List String) : DState × String :=
         ({ d with sys := Srtla.Reload.step d.mk' d.sys (.mutate idx tok) }, "ok")
       else (d, "noidx")
     | _, _, _, _, _ => (d, "bad-op")
+  | ["resock", i, t, k, n] =>
+    if !d.started then (d, "bad-op") else
+    match kvNat [i] "i", kvNat [t] "tok", kvNat [k] "sock", kvNat [n] "now" with
+    | some idx, some tok, some sock, some _ =>
+      match d.sys.links[idx]? with
+      | none => (d, "noidx")
+      | some l =>
+        if (d.sys.io.get l.connId).isNone then (d, "noio") else
+        ({ d with sys := Srtla.Reload.step d.mk' d.sys (.resock idx sock tok) }, "ok")
+    | _, _, _, _ => (d, "bad-op")
   | ["track", q, i, t] =>
     if !d.started then (d, "bad-op") else
     match kvNat [q] "seq", kvNat [i] "id", kvNat [t] "ts" with
